@@ -49,7 +49,12 @@ def parsePdrRules (s : String) : List RuleIE :=
     | i :: _ => { id := parseId i }
     | [] => { id := none }
 
-def parseNode (s : String) : Option String := if s == "-" then none else some s
+def parseNode (s : String) : Option NodeId :=
+  if s == "-" then none
+  else if s.startsWith "4:" then some (.v4 (s.drop 2).toString)
+  else if s.startsWith "6:" then some (.v6 (s.drop 2).toString)
+  else if s.startsWith "f:" then some (.fqdn (s.drop 2).toString)
+  else some (.fqdn s)
 
 def parseItems (s : String) : List RepItem :=
   if s == "_" || s == "" then [] else
@@ -199,8 +204,10 @@ def renderOuts (outs : List Out) : List String :=
 def sortStr (xs : List String) : List String := xs.mergeSort (fun a b => a < b || a == b)
 def sortNat (xs : List Nat) : List Nat := xs.mergeSort (· ≤ ·)
 
-def showNode (id : String) : String :=
-  if id.startsWith "6:" || id.startsWith "f:" then (id.drop 2).toString else id
+def showNode : NodeId → String
+  | .v4 p => "4:" ++ p
+  | .v6 t => t
+  | .fqdn t => t
 
 def b2s (b : Bool) : String := if b then "1" else "0"
 
